@@ -462,7 +462,7 @@ pub fn run(ctx: &Ctx) -> Report {
     }
     Report {
         tally,
-        rule: "generated component files (all five line kinds, metadata, hostile comments, auxiliaries on several systems, completed ambient / solar production; values on the 0.01 grid so that the text form is lossless, and dyadic values that are not) and prepared factor sets (regulatory and user files): Display -> FromStr must keep metadata, tags, ids, comments, demands and values within half a unit of the printed precision per line; both sides are evaluated and every result field compared within the propagated rounding; every ~50th case runs the real binary with --oc / --of and again on the saved files; non-trivial = at least four of the five line kinds present; distinct = distinct (components text, factors, k_exp, area, mode)".into(),
+        rule: "generated component files (all five line kinds, metadata, hostile comments, auxiliaries on several systems, completed ambient / solar production; values on the 0.01 grid so that the text form is lossless, and dyadic values that are not) and prepared factor sets (regulatory and user files): Display -> FromStr must keep metadata, tags, ids, comments, demands and values within half a unit of the printed precision per line; both sides are evaluated and every result field compared within the propagated rounding; every ~50th case runs the real binary with --oc / --of and again on the saved files; non-trivial = at least four of the five line kinds present; distinct = distinct (components text, factors, k_exp, area, mode); second session: the program also saves over existing longer files and, in one run out of five, in place (--oc names the -c file, also through ./); factor files carry hostile comments and metadata".into(),
         assumptions: vec![
             "k_exp and area are recorded in the saved metadata with 1 and 2 decimals: the process-level round trip uses values with that precision".into(),
             "comments of automatically generated lines (completions, reassigned auxiliaries) may merge on re-reading; declared comments must stay".into(),
